@@ -34,7 +34,22 @@ func zzStrictLines(b []byte) (lines int, ok bool) {
 	return 0, false // no terminating empty line
 }
 
-// header line shape: name ':' ... with a non-empty token name free of SP/CTL/colon.
+// RFC 7230 tchar
+var zzTokenChar = func() (t [256]bool) {
+	for c := '0'; c <= '9'; c++ {
+		t[c] = true
+	}
+	for c := 'a'; c <= 'z'; c++ {
+		t[c] = true
+		t[c-'a'+'A'] = true
+	}
+	for _, c := range []byte("!#$%&'*+-.^_`|~") {
+		t[c] = true
+	}
+	return
+}()
+
+// header line shape: name ':' ... with a non-empty name made of token characters only.
 func zzLineNamesOK(b []byte) bool {
 	// skip start line
 	i := 0
@@ -48,7 +63,7 @@ func zzLineNamesOK(b []byte) bool {
 		}
 		j := i
 		for j < len(b) && b[j] != ':' && b[j] != '\r' {
-			if b[j] <= ' ' || b[j] == 0x7f {
+			if !zzTokenChar[b[j]] {
 				return false
 			}
 			j++
